@@ -492,7 +492,9 @@ class AlignmentCollector:
                     coverage_dict[pos] > max(AlignmentCollector.ABS_COV_VALLEY, max_cov * AlignmentCollector.REL_COV_VALLEY):
                 max_cov = max(max_cov, coverage_dict[pos])
                 pos += 1
-            split_regions.append((max(current_start * AbstractAlignmentStorage.COVERAGE_BIN + 1, genomic_region[0]),
+            # the first sub-region starts where the region starts (also when that is the first base of a bin)
+            region_start = current_start * AbstractAlignmentStorage.COVERAGE_BIN + 1 if split_regions else genomic_region[0]
+            split_regions.append((max(region_start, genomic_region[0]),
                                   min(pos * AbstractAlignmentStorage.COVERAGE_BIN, genomic_region[1])))
             current_start = pos
             max_cov = coverage_dict[current_start]
